@@ -5,7 +5,7 @@
   header positions (remaining-length coordinates) differ by `r.length`.
 -/
 import Edn.Proofs.ReReadAux4a
-import Edn.Proofs.ReReadAux3Stub
+import Edn.Proofs.ReReadAux3
 
 set_option linter.unusedSimpArgs false
 
@@ -38,31 +38,6 @@ theorem dropWhile_append_cons {p : UInt8 → Bool} {u w : Bytes} {b : UInt8} (r 
 theorem dropWhile_append_nil {p : UInt8 → Bool} {u : Bytes} (r : Bytes)
     (h : u.dropWhile p = []) : (u ++ r).dropWhile p = r.dropWhile p := by
   rw [List.dropWhile_append, h]; rfl
-
-/-! ## strict length bounds of the tails that consume their first byte -/
-
-theorem decimalPart_len_adv (cfg : Cfg) (start : Bytes) (neg : Bool) (ds s : Bytes) :
-    numLen (decimalPart cfg start neg ds s) ≤ (adv s).length := by
-  unfold decimalPart
-  simp only []
-  apply numLen_ite
-  · exact Nat.le_refl _
-  · have := afterMantissa_len cfg start neg true ds (fracDigits cfg.exp (adv s))
-    have := fracDigits_len cfg.exp (adv s)
-    omega
-
-theorem exponentPart_len_adv (cfg : Cfg) (start : Bytes) (neg hasDec : Bool) (ds s : Bytes) :
-    numLen (exponentPart cfg start neg hasDec ds s) ≤ (adv s).length := by
-  unfold exponentPart
-  simp only []
-  have ha2 := adv_length_le (adv s)
-  generalize hs2 : (if (peek (adv s) == 43 || peek (adv s) == 45) = true then adv (adv s) else adv s) = s2
-  have hl : s2.length ≤ (adv s).length := by subst hs2; split <;> omega
-  apply numLen_ite
-  · exact hl
-  · have := decimalTail_len cfg start neg hasDec true ds (fracDigits cfg.exp s2)
-    have := fracDigits_len cfg.exp s2
-    omega
 
 /-! ## the radix digit runs -/
 
@@ -108,7 +83,7 @@ theorem radixRun_cut (cfg : Cfg) (neg : Bool) (rv : Nat) (strict allowN : Bool) 
   refine NumCut_bind (fb := radixTail cfg neg rv allowN (ds ++ r)) (fs := radixTail cfg neg rv allowN ds)
     (radixDigitsLoop_cut cfg.exp rv strict hr r u ((u ++ r).length + 1) (u.length + 1)
       (by simp only [List.length_append]; omega) (by omega))
-    (fun s => radixTail_len ..) (fun u1 => radixTail_cut ..) ?_ ?_ ?_
+    (fun s => radixTail_len ..) (fun u1 => radixTail_cut _ _ _ _ _ _ _) ?_ ?_ ?_
   · intro c h; rw [h]
   · intro s h; rw [h]
   · intro s h; rw [h]
@@ -120,7 +95,7 @@ theorem radixChecked_cut (cfg : Cfg) (neg : Bool) (rv : Nat) (strict allowN : Bo
   | cons a ds' =>
     simp only [List.cons_append, peek, List.headD_cons]
     by_cases h : (!(digitValue a rv).isSome) = true
-    · simp only [h, reduceIte]; exact NumCut_err ..
+    · simp only [h, reduceIte]; exact NumCut_err _ _ _
     · simp only [h, Bool.false_eq_true, reduceIte]
       exact radixRun_cut cfg neg rv strict allowN hr (a :: ds') (a :: ds') r
   | nil =>
@@ -129,11 +104,560 @@ theorem radixChecked_cut (cfg : Cfg) (neg : Bool) (rv : Nat) (strict allowN : Bo
     | cons c r' =>
       simp only [List.nil_append, peek, List.headD_cons]
       by_cases h : (!(digitValue c rv).isSome) = true
-      · simp only [h, reduceIte]; exact NumCut_err ..
+      · simp only [h, reduceIte]; exact NumCut_err _ _ _
       · simp only [h, Bool.false_eq_true, reduceIte]
         apply NumCut_of_numLen
-        have := radixRun_consume cfg neg rv strict allowN (c :: r') c r' hr (by simpa using h)
+        have := radixRun_consume cfg neg rv strict allowN (c :: r') c r' hr (by
+          cases hh : (digitValue c rv).isSome with
+          | true => rfl
+          | false => simp [hh] at h)
         simp only [List.length_cons]
         omega
+
+/-! ## the radix form `NNr…` -/
+
+theorem radixFormOf_nil (cfg : Cfg) (neg : Bool) (s : Bytes) (h : s.dropWhile is09 = []) :
+    radixFormOf cfg neg s = none := by
+  unfold radixFormOf
+  simp only [h]
+  split <;> rfl
+
+theorem radixFormOf_cons (cfg : Cfg) (neg : Bool) (s : Bytes) (b : UInt8) (rrest : Bytes)
+    (h : s.dropWhile is09 = b :: rrest) :
+    radixFormOf cfg neg s =
+      if cfg.clj && is09 (peek s) then
+        if b == 0x72 || b == 0x52 then
+          if 2 ≤ radixPrefixValue 0 (slice s (b :: rrest)) && radixPrefixValue 0 (slice s (b :: rrest)) ≤ 36 then
+            some (radixChecked cfg neg (radixPrefixValue 0 (slice s (b :: rrest))) true false rrest)
+          else some (.err s)
+        else none
+      else none := by
+  unfold radixFormOf radixChecked radixRun
+  simp only [h]
+  split
+  · split
+    · split
+      · split
+        · rfl
+        · split <;> (rename_i heq; rw [heq])
+      · rfl
+    · rfl
+  · rfl
+
+theorem radixChecked_len (cfg : Cfg) (neg : Bool) (rv : Nat) (strict allowN : Bool) (ds : Bytes) :
+    numLen (radixChecked cfg neg rv strict allowN ds) ≤ ds.length := by
+  unfold radixChecked
+  apply numLen_ite
+  · exact Nat.le_refl _
+  · exact radixRun_len ..
+
+theorem radixFormOf_cut (cfg : Cfg) (neg : Bool) (u r : Bytes) :
+    (∃ big small, radixFormOf cfg neg (u ++ r) = some big ∧ radixFormOf cfg neg u = some small ∧
+      NumCut r big small) ∨
+    (radixFormOf cfg neg u = none ∧
+      ∀ big, radixFormOf cfg neg (u ++ r) = some big → ∀ small, NumCut r big small) := by
+  cases hdw : u.dropWhile is09 with
+  | nil =>
+    right
+    refine ⟨radixFormOf_nil _ _ _ hdw, ?_⟩
+    intro big hbig small
+    have hdw2 := dropWhile_append_nil r hdw
+    cases hr : r.dropWhile is09 with
+    | nil => rw [radixFormOf_nil _ _ _ (hdw2.trans hr)] at hbig; cases hbig
+    | cons b rrest =>
+      rw [radixFormOf_cons _ _ _ b rrest (hdw2.trans hr)] at hbig
+      have hlr : rrest.length < r.length := by
+        have := dropWhile_length_le is09 r
+        rw [hr] at this
+        simp only [List.length_cons] at this
+        omega
+      split at hbig
+      · split at hbig
+        · split at hbig
+          · cases hbig
+            apply NumCut_of_numLen
+            have := radixChecked_len cfg neg (radixPrefixValue 0 (slice (u ++ r) (b :: rrest))) true false rrest
+            omega
+          · cases hbig; exact NumCut_err _ _ _
+        · cases hbig
+      · cases hbig
+  | cons b rrest =>
+    cases u with
+    | nil => simp at hdw
+    | cons a u' =>
+      rw [radixFormOf_cons _ _ _ b (rrest ++ r) (dropWhile_append_cons r hdw),
+        radixFormOf_cons _ _ _ b rrest hdw]
+      have hs : slice (a :: u' ++ r) (b :: (rrest ++ r)) = slice (a :: u') (b :: rrest) :=
+        slice_append_right (a :: u') (b :: rrest) r
+      rw [hs]
+      simp only [List.cons_append, peek, List.headD_cons]
+      generalize radixPrefixValue 0 (slice (a :: u') (b :: rrest)) = rv
+      by_cases h1 : (cfg.clj && is09 a) = true
+      case neg =>
+        right
+        simp only [h1, Bool.false_eq_true, reduceIte]
+        exact ⟨trivial, fun big h => by cases h⟩
+      simp only [h1, reduceIte]
+      by_cases h2 : (b == 0x72 || b == 0x52) = true
+      case neg =>
+        right
+        simp only [h2, Bool.false_eq_true, reduceIte]
+        exact ⟨trivial, fun big h => by cases h⟩
+      simp only [h2, reduceIte]
+      left
+      by_cases h3 : (decide (2 ≤ rv) && decide (rv ≤ 36)) = true
+      case neg =>
+        simp only [h3, Bool.false_eq_true, reduceIte]
+        exact ⟨_, _, rfl, rfl, NumCut_err _ _ _⟩
+      simp only [h3, reduceIte]
+      have hr36 : rv ≤ 36 := by
+        simp only [Bool.and_eq_true, decide_eq_true_eq] at h3
+        exact h3.2
+      exact ⟨_, _, rfl, rfl, radixChecked_cut cfg neg rv true false hr36 rrest r⟩
+/-! ## the decimal path -/
+
+theorem NumCut_ite_left {r : Bytes} (c : Prop) [Decidable c] {a b small : NumOut}
+    (h1 : c → NumCut r a small) (h2 : ¬c → NumCut r b small) :
+    NumCut r (if c then a else b) small := by
+  by_cases hc : c
+  · rw [if_pos hc]; exact h1 hc
+  · rw [if_neg hc]; exact h2 hc
+
+/-- what follows the integer digits of the main path -/
+def afterDigits (cfg : Cfg) (s0 : Bytes) (neg : Bool) (ds s1 : Bytes) : NumOut :=
+  if peek s1 == 0x2E then decimalPart cfg s0 neg ds s1 else afterMantissa cfg s0 neg false ds s1
+
+theorem afterDigits_len (cfg : Cfg) (s0 : Bytes) (neg : Bool) (ds s1 : Bytes) :
+    numLen (afterDigits cfg s0 neg ds s1) ≤ s1.length :=
+  numLen_ite _ _ _ _ (decimalPart_len ..) (afterMantissa_len ..)
+
+theorem afterDigits_cut (cfg : Cfg) (s0 : Bytes) (neg : Bool) (ds u r : Bytes) :
+    NumCut r (afterDigits cfg (s0 ++ r) neg (ds ++ r) (u ++ r)) (afterDigits cfg s0 neg ds u) := by
+  unfold afterDigits
+  cases u with
+  | cons a w =>
+    simp only [List.cons_append, peek, List.headD_cons]
+    exact NumCut_ite _ (fun _ => decimalPart_cut cfg s0 neg ds (a :: w) r)
+      (fun _ => afterMantissa_cut cfg s0 neg false ds (a :: w) r)
+  | nil =>
+    cases r with
+    | nil => simp only [List.append_nil]; exact NumCut_nil _
+    | cons c r' =>
+      have hs : (peek ([] : Bytes) == 0x2E) = false := by decide
+      simp only [hs, Bool.false_eq_true, reduceIte]
+      apply NumCut_ite_left
+      · intro _
+        apply NumCut_of_numLen
+        have := decimalPart_len_adv cfg (s0 ++ c :: r') neg (ds ++ c :: r') ([] ++ c :: r')
+        simp only [List.nil_append, adv, List.tail_cons] at this
+        simp only [List.nil_append, List.length_cons]
+        omega
+      · intro _
+        exact afterMantissa_cut cfg s0 neg false ds [] (c :: r')
+
+theorem decPath_eq (cfg : Cfg) (s0 : Bytes) (neg : Bool) (s : Bytes) :
+    decPath cfg s0 neg s =
+      match decDigitsLoop cfg.exp (s.length + 1) s with
+      | .error cur => .err cur
+      | .ok s1 => afterDigits cfg s0 neg s s1 := rfl
+
+theorem decPath_cut (cfg : Cfg) (s0 : Bytes) (neg : Bool) (u r : Bytes) :
+    NumCut r (decPath cfg (s0 ++ r) neg (u ++ r)) (decPath cfg s0 neg u) := by
+  rw [decPath_eq, decPath_eq]
+  refine NumCut_bind (fb := afterDigits cfg (s0 ++ r) neg (u ++ r)) (fs := afterDigits cfg s0 neg u)
+    (decDigitsLoop_cut cfg.exp r u ((u ++ r).length + 1) (u.length + 1)
+      (by simp only [List.length_append]; omega) (by omega))
+    (fun s => afterDigits_len ..) (fun u1 => afterDigits_cut cfg s0 neg u u1 r) ?_ ?_ ?_
+  · intro c h; rw [h]
+  · intro s h; rw [h]
+  · intro s h; rw [h]
+
+/-! ## the zero path -/
+
+/-- the part of the zero path after the Clojure extensions -/
+def zeroTail (cfg : Cfg) (s0 : Bytes) (neg : Bool) (ds s2 : Bytes) : NumOut :=
+  let c2 := peek s2
+  if c2 == 0x2E then decimalPart cfg s0 neg ds s2
+  else if c2 == 0x4E then finishNum (.bigint neg 10 [0x30]) (adv s2)
+  else if c2 == 0x4D then finishNum (.bigdec neg [0x30]) (adv s2)
+  else if c2 == 0x65 || c2 == 0x45 then exponentPart cfg s0 neg false ds s2
+  else if cfg.clj && c2 == 0x2F then
+    match ratioDenominator (adv s2) with
+    | .error cur => .err cur
+    | .ok s' => .ok (.int 0) s'
+  else finishNum (.int 0) s2
+
+theorem zeroRatio_len (s : Bytes) :
+    numLen (match ratioDenominator s with
+      | .error cur => NumOut.err cur
+      | .ok s' => NumOut.ok (.int 0) s') ≤ s.length := by
+  have hr := ratioDenominator_len s
+  cases hrd : ratioDenominator s with
+  | error cur => rw [hrd] at hr; exact hr
+  | ok s' => rw [hrd] at hr; exact hr
+
+theorem zeroRatio_cut (u r : Bytes) :
+    NumCut r (match ratioDenominator (u ++ r) with
+      | .error cur => NumOut.err cur
+      | .ok s' => NumOut.ok (.int 0) s')
+     (match ratioDenominator u with
+      | .error cur => NumOut.err cur
+      | .ok s' => NumOut.ok (.int 0) s') := by
+  refine NumCut_bind (fb := fun s' => NumOut.ok (.int 0) s') (fs := fun s' => NumOut.ok (.int 0) s')
+    (ratioDenominator_cut u r) (fun s => Nat.le_refl _) (fun u1 => NumCut_ok r u1 _) ?_ ?_ ?_
+  · intro c h; rw [h]
+  · intro s h; rw [h]
+  · intro s h; rw [h]
+
+theorem zeroTail_len_adv (cfg : Cfg) (s0 : Bytes) (neg : Bool) (ds : Bytes) (c : UInt8) (cs : Bytes)
+    (h : ¬ (finishNum (.int 0) (c :: cs) = zeroTail cfg s0 neg ds (c :: cs))) :
+    numLen (zeroTail cfg s0 neg ds (c :: cs)) ≤ cs.length := by
+  unfold zeroTail at h ⊢
+  simp only [peek, adv, List.headD_cons, List.tail_cons] at h ⊢
+  by_cases h1 : (c == 0x2E) = true
+  · simp only [h1, reduceIte]
+    exact decimalPart_len_adv cfg s0 neg ds (c :: cs)
+  simp only [h1, Bool.false_eq_true, reduceIte] at h ⊢
+  by_cases h2 : (c == 0x4E) = true
+  · simp only [h2, reduceIte]; rw [finishNum_len]; exact Nat.le_refl _
+  simp only [h2, Bool.false_eq_true, reduceIte] at h ⊢
+  by_cases h3 : (c == 0x4D) = true
+  · simp only [h3, reduceIte]; rw [finishNum_len]; exact Nat.le_refl _
+  simp only [h3, Bool.false_eq_true, reduceIte] at h ⊢
+  by_cases h4 : (c == 0x65 || c == 0x45) = true
+  · simp only [h4, reduceIte]
+    exact exponentPart_len_adv cfg s0 neg false ds (c :: cs)
+  simp only [h4, Bool.false_eq_true, reduceIte] at h ⊢
+  by_cases h5 : (cfg.clj && c == 0x2F) = true
+  · simp only [h5, reduceIte]
+    exact zeroRatio_len cs
+  simp only [h5, Bool.false_eq_true, reduceIte] at h ⊢
+  exact absurd trivial h
+
+theorem zeroTail_nil (cfg : Cfg) (s0 : Bytes) (neg : Bool) (ds : Bytes) :
+    zeroTail cfg s0 neg ds [] = finishNum (.int 0) [] := by
+  unfold zeroTail
+  have h1 : (peek ([] : Bytes) == 0x2E) = false := by decide
+  have h2 : (peek ([] : Bytes) == 0x4E) = false := by decide
+  have h3 : (peek ([] : Bytes) == 0x4D) = false := by decide
+  have h4 : (peek ([] : Bytes) == 0x65 || peek ([] : Bytes) == 0x45) = false := by decide
+  have h5 : (peek ([] : Bytes) == 0x2F) = false := by decide
+  simp only [h1, h2, h3, h4, h5, Bool.and_false, Bool.false_eq_true, reduceIte]
+
+theorem zeroTail_len (cfg : Cfg) (s0 : Bytes) (neg : Bool) (ds s2 : Bytes) :
+    numLen (zeroTail cfg s0 neg ds s2) ≤ s2.length := by
+  cases s2 with
+  | nil => rw [zeroTail_nil, finishNum_len]; exact Nat.le_refl _
+  | cons c cs =>
+    by_cases h : finishNum (.int 0) (c :: cs) = zeroTail cfg s0 neg ds (c :: cs)
+    · rw [← h, finishNum_len]; exact Nat.le_refl _
+    · have := zeroTail_len_adv cfg s0 neg ds c cs h
+      simp only [List.length_cons]; omega
+
+/-- at the boundary: either a byte of `r` is consumed, or the tail only validates the delimiter -/
+theorem zeroTail_cut_nil (cfg : Cfg) (s0 : Bytes) (neg : Bool) (ds r : Bytes) :
+    NumCut r (zeroTail cfg (s0 ++ r) neg (ds ++ r) r) (zeroTail cfg s0 neg ds []) := by
+  cases r with
+  | nil => simp only [List.append_nil]; exact NumCut_nil _
+  | cons c r' =>
+    rw [zeroTail_nil]
+    by_cases h : finishNum (.int 0) (c :: r') = zeroTail cfg (s0 ++ c :: r') neg (ds ++ c :: r') (c :: r')
+    · rw [← h]; exact finishNum_cut (.int 0) [] (c :: r')
+    · apply NumCut_of_numLen
+      have := zeroTail_len_adv cfg _ neg _ c r' h
+      simp only [List.length_cons]; omega
+
+theorem zeroTail_cut_cons (cfg : Cfg) (s0 : Bytes) (neg : Bool) (ds : Bytes) (a : UInt8) (w r : Bytes) :
+    NumCut r (zeroTail cfg (s0 ++ r) neg (ds ++ r) (a :: w ++ r)) (zeroTail cfg s0 neg ds (a :: w)) := by
+  unfold zeroTail
+  simp only [List.cons_append, peek, adv, List.headD_cons, List.tail_cons]
+  refine NumCut_ite _ (fun _ => decimalPart_cut cfg s0 neg ds (a :: w) r) (fun _ => ?_)
+  refine NumCut_ite _ (fun _ => finishNum_cut _ w r) (fun _ => ?_)
+  refine NumCut_ite _ (fun _ => finishNum_cut _ w r) (fun _ => ?_)
+  refine NumCut_ite _ (fun _ => exponentPart_cut cfg s0 neg false ds (a :: w) r) (fun _ => ?_)
+  refine NumCut_ite _ (fun _ => zeroRatio_cut w r) (fun _ => ?_)
+  exact finishNum_cut _ (a :: w) r
+
+/-! ## the Clojure extensions of the zero path -/
+
+def octalDigitOk (c : UInt8) : Bool := !(0x31 ≤ c && c ≤ 0x37) || (digitValue c 8).isSome
+theorem octalDigit_ok : ∀ c, octalDigitOk c = true := forall_u8_bool _ (by decide +kernel)
+
+/-- the zero path with the Clojure extensions, as a function of the position after the zeros -/
+def zeroClj (cfg : Cfg) (s0 : Bytes) (neg : Bool) (ds s2 : Bytes) : NumOut :=
+  let c2 := peek s2
+  if c2 == 0x78 || c2 == 0x58 then radixChecked cfg neg 16 false true (adv s2)
+  else if 0x31 ≤ c2 && c2 ≤ 0x37 then radixRun cfg neg 8 false true ds s2
+  else if c2 == 0x38 || c2 == 0x39 then .err s2
+  else zeroTail cfg s0 neg ds s2
+
+theorem zeroPath_eq (cfg : Cfg) (s0 : Bytes) (neg : Bool) (ds s1 : Bytes) :
+    zeroPath cfg s0 neg ds s1 =
+      match cljBranchOf cfg neg ds s1 with
+      | (some r, _) => r
+      | (none, s2) => zeroTail cfg s0 neg ds s2 := rfl
+
+theorem cljBranchOf_clj (cfg : Cfg) (neg : Bool) (ds s1 : Bytes) (h : cfg.clj = true) :
+    cljBranchOf cfg neg ds s1 =
+      if peek (s1.dropWhile (· == 0x30)) == 0x78 || peek (s1.dropWhile (· == 0x30)) == 0x58 then
+        (some (radixChecked cfg neg 16 false true (adv (s1.dropWhile (· == 0x30)))), s1.dropWhile (· == 0x30))
+      else if 0x31 ≤ peek (s1.dropWhile (· == 0x30)) && peek (s1.dropWhile (· == 0x30)) ≤ 0x37 then
+        (some (radixRun cfg neg 8 false true ds (s1.dropWhile (· == 0x30))), s1.dropWhile (· == 0x30))
+      else if peek (s1.dropWhile (· == 0x30)) == 0x38 || peek (s1.dropWhile (· == 0x30)) == 0x39 then
+        (some (.err (s1.dropWhile (· == 0x30))), s1.dropWhile (· == 0x30))
+      else (none, s1.dropWhile (· == 0x30)) := by
+  unfold cljBranchOf radixChecked radixRun
+  simp only [h, reduceIte]
+  generalize s1.dropWhile (· == 0x30) = s2
+  split
+  · split
+    · rfl
+    · split <;> (rename_i heq; rw [heq])
+  · split
+    · split <;> (rename_i heq; rw [heq])
+    · rfl
+
+theorem zeroPath_clj (cfg : Cfg) (s0 : Bytes) (neg : Bool) (ds s1 : Bytes) (h : cfg.clj = true) :
+    zeroPath cfg s0 neg ds s1 = zeroClj cfg s0 neg ds (s1.dropWhile (· == 0x30)) := by
+  rw [zeroPath_eq, cljBranchOf_clj _ _ _ _ h]
+  unfold zeroClj
+  generalize s1.dropWhile (· == 0x30) = s2
+  simp only []
+  by_cases h1 : (peek s2 == 0x78 || peek s2 == 0x58) = true
+  · simp only [h1, reduceIte]
+  simp only [h1, Bool.false_eq_true, reduceIte]
+  by_cases h2 : (decide (0x31 ≤ peek s2) && decide (peek s2 ≤ 0x37)) = true
+  · simp only [h2, reduceIte]
+  simp only [h2, Bool.false_eq_true, reduceIte]
+  by_cases h3 : (peek s2 == 0x38 || peek s2 == 0x39) = true
+  · simp only [h3, reduceIte]
+  simp only [h3, Bool.false_eq_true, reduceIte]
+
+theorem zeroPath_core (cfg : Cfg) (s0 : Bytes) (neg : Bool) (ds s1 : Bytes) (h : cfg.clj = false) :
+    zeroPath cfg s0 neg ds s1 = if is09 (peek s1) then .err s1 else zeroTail cfg s0 neg ds s1 := by
+  rw [zeroPath_eq]
+  unfold cljBranchOf
+  simp only [h, Bool.false_eq_true, reduceIte]
+  by_cases h1 : is09 (peek s1) = true
+  · simp only [h1, reduceIte]
+  · simp only [h1, Bool.false_eq_true, reduceIte]
+
+
+theorem zeroClj_len (cfg : Cfg) (s0 : Bytes) (neg : Bool) (ds s2 : Bytes) :
+    numLen (zeroClj cfg s0 neg ds s2) ≤ s2.length := by
+  unfold zeroClj
+  simp only []
+  apply numLen_ite
+  · have := radixChecked_len cfg neg 16 false true (adv s2)
+    have := adv_length_le s2
+    omega
+  apply numLen_ite
+  · exact radixRun_len ..
+  apply numLen_ite
+  · exact Nat.le_refl _
+  · exact zeroTail_len ..
+
+theorem zeroClj_cut_cons (cfg : Cfg) (s0 : Bytes) (neg : Bool) (ds : Bytes) (a : UInt8) (w r : Bytes) :
+    NumCut r (zeroClj cfg (s0 ++ r) neg (ds ++ r) (a :: w ++ r)) (zeroClj cfg s0 neg ds (a :: w)) := by
+  unfold zeroClj
+  simp only [List.cons_append, peek, adv, List.headD_cons, List.tail_cons]
+  refine NumCut_ite _ (fun _ => radixChecked_cut cfg neg 16 false true (by omega) w r) (fun _ => ?_)
+  refine NumCut_ite _ (fun _ => radixRun_cut cfg neg 8 false true (by omega) ds (a :: w) r) (fun _ => ?_)
+  refine NumCut_ite _ (fun _ => NumCut_err _ _ _) (fun _ => ?_)
+  exact zeroTail_cut_cons cfg s0 neg ds a w r
+
+theorem zeroClj_nil (cfg : Cfg) (s0 : Bytes) (neg : Bool) (ds : Bytes) :
+    zeroClj cfg s0 neg ds [] = zeroTail cfg s0 neg ds [] := by
+  unfold zeroClj
+  have h1 : (peek ([] : Bytes) == 0x78 || peek ([] : Bytes) == 0x58) = false := by decide
+  have h2 : (decide (0x31 ≤ peek ([] : Bytes)) && decide (peek ([] : Bytes) ≤ 0x37)) = false := by decide
+  have h3 : (peek ([] : Bytes) == 0x38 || peek ([] : Bytes) == 0x39) = false := by decide
+  simp only [h1, h2, h3, Bool.false_eq_true, reduceIte]
+
+theorem zeroClj_cut_nil (cfg : Cfg) (s0 : Bytes) (neg : Bool) (ds r : Bytes) :
+    NumCut r (zeroClj cfg (s0 ++ r) neg (ds ++ r) r) (zeroClj cfg s0 neg ds []) := by
+  rw [zeroClj_nil]
+  cases r with
+  | nil => simp only [List.append_nil]; rw [zeroClj_nil]; exact NumCut_nil _
+  | cons c r' =>
+    unfold zeroClj
+    simp only [peek, adv, List.headD_cons, List.tail_cons]
+    apply NumCut_ite_left
+    · intro _
+      apply NumCut_of_numLen
+      have := radixChecked_len cfg neg 16 false true r'
+      simp only [List.length_cons]; omega
+    intro _
+    apply NumCut_ite_left
+    · intro h
+      apply NumCut_of_numLen
+      have hd : (digitValue c 8).isSome = true := by
+        have := octalDigit_ok c
+        simp only [octalDigitOk, Bool.or_eq_true, Bool.not_eq_eq_eq_not, Bool.not_true] at this
+        rcases this with h' | h'
+        · have h2 : (decide (49 ≤ c) && decide (c ≤ 55)) = true := h
+          rw [h'] at h2; cases h2
+        · exact h'
+      have := radixRun_consume cfg neg 8 false true (ds ++ c :: r') c r' (by omega) hd
+      simp only [List.length_cons]; omega
+    intro _
+    apply NumCut_ite_left
+    · intro _; exact NumCut_err _ _ _
+    intro _
+    exact zeroTail_cut_nil cfg s0 neg ds (c :: r')
+
+theorem zeroPath_cut (cfg : Cfg) (s0 : Bytes) (neg : Bool) (ds u r : Bytes) :
+    NumCut r (zeroPath cfg (s0 ++ r) neg (ds ++ r) (u ++ r)) (zeroPath cfg s0 neg ds u) := by
+  cases hclj : cfg.clj with
+  | true =>
+    rw [zeroPath_clj _ _ _ _ _ hclj, zeroPath_clj _ _ _ _ _ hclj]
+    cases hd : u.dropWhile (· == 0x30) with
+    | cons b w =>
+      rw [dropWhile_append_cons r hd]
+      exact zeroClj_cut_cons cfg s0 neg ds b w r
+    | nil =>
+      rw [dropWhile_append_nil r hd]
+      by_cases hl : r.length ≤ (r.dropWhile (· == 0x30)).length
+      · have : r.dropWhile (· == 0x30) = r := (List.dropWhile_suffix _).eq_of_length_le hl
+        rw [this]
+        exact zeroClj_cut_nil cfg s0 neg ds r
+      · apply NumCut_of_numLen
+        have := zeroClj_len cfg (s0 ++ r) neg (ds ++ r) (r.dropWhile (· == 0x30))
+        omega
+  | false =>
+    rw [zeroPath_core _ _ _ _ _ hclj, zeroPath_core _ _ _ _ _ hclj]
+    cases u with
+    | cons a w =>
+      simp only [List.cons_append, peek, List.headD_cons]
+      exact NumCut_ite _ (fun _ => NumCut_err _ _ _) (fun _ => zeroTail_cut_cons cfg s0 neg ds a w r)
+    | nil =>
+      have h0 : is09 (peek ([] : Bytes)) = false := by decide
+      simp only [h0, Bool.false_eq_true, reduceIte, List.nil_append]
+      apply NumCut_ite_left
+      · intro _; exact NumCut_err _ _ _
+      · intro _; exact zeroTail_cut_nil cfg s0 neg ds r
+
+/-! ## the whole reader -/
+
+theorem decPath_len' (cfg : Cfg) (s0 : Bytes) (neg : Bool) (s : Bytes) :
+    numLen (decPath cfg s0 neg s) ≤ s.length := by
+  rw [decPath_eq]
+  have hl := decDigitsLoop_len cfg.exp (s.length + 1) s
+  cases hd : decDigitsLoop cfg.exp (s.length + 1) s with
+  | error cur => rw [hd] at hl; exact hl
+  | ok s1 =>
+    rw [hd] at hl; simp only [exLen] at hl
+    have := afterDigits_len cfg s0 neg s s1
+    simp only []
+    omega
+
+theorem readNumberBody_cut (cfg : Cfg) (s0 : Bytes) (neg : Bool) (u r : Bytes) :
+    NumCut r (readNumberBody cfg (s0 ++ r) neg (u ++ r)) (readNumberBody cfg s0 neg u) := by
+  unfold readNumberBody
+  rcases radixFormOf_cut cfg neg u r with ⟨big, small, hb, hs, hcut⟩ | ⟨hs, hb⟩
+  · rw [hb, hs]; exact hcut
+  · rw [hs]
+    cases hbig : radixFormOf cfg neg (u ++ r) with
+    | some big => exact hb big hbig _
+    | none =>
+      simp only []
+      cases u with
+      | cons a w =>
+        simp only [List.cons_append, peek, adv, List.headD_cons, List.tail_cons]
+        exact NumCut_ite _ (fun _ => zeroPath_cut cfg s0 neg (a :: w) w r)
+          (fun _ => decPath_cut cfg s0 neg (a :: w) r)
+      | nil =>
+        have h0 : (peek ([] : Bytes) == 0x30) = false := by decide
+        simp only [h0, Bool.false_eq_true, reduceIte]
+        apply NumCut_ite_left
+        · intro h
+          cases r with
+          | nil => exact absurd h (by decide)
+          | cons c r' =>
+            apply NumCut_of_numLen
+            have := zeroPath_len cfg (s0 ++ c :: r') neg ([] ++ c :: r') (adv ([] ++ c :: r'))
+            simp only [List.nil_append, adv, List.tail_cons] at this
+            simp only [List.nil_append, adv, List.tail_cons, List.length_cons]
+            omega
+        · intro _
+          exact decPath_cut cfg s0 neg [] r
+
+
+theorem radixFormOf_none_of_not09 (cfg : Cfg) (neg : Bool) (s : Bytes) (h : is09 (peek s) = false) :
+    radixFormOf cfg neg s = none := by
+  unfold radixFormOf
+  simp only [h, Bool.and_false, Bool.false_eq_true, reduceIte]
+
+theorem readNumberBody_len (cfg : Cfg) (s0 : Bytes) (neg : Bool) (s : Bytes) :
+    numLen (readNumberBody cfg s0 neg s) ≤ s.length := by
+  unfold readNumberBody
+  cases hrf : radixFormOf cfg neg s with
+  | some res =>
+    cases h9 : is09 (peek s) with
+    | false => rw [radixFormOf_none_of_not09 cfg neg s h9] at hrf; cases hrf
+    | true =>
+      have := radixFormOf_prog cfg neg s h9 res hrf
+      simp only []
+      cases res with
+      | ok v rest => simp only [numProg] at this; simp only [numLen]; omega
+      | err cur => exact this
+  | none =>
+    simp only []
+    apply numLen_ite
+    · have := zeroPath_len cfg s0 neg s (adv s)
+      have := adv_length_le s
+      omega
+    · exact decPath_len' ..
+
+/-- continuation independence of `edn_read_number` -/
+theorem readNumber_cut (cfg : Cfg) (t r : Bytes) :
+    NumCut r (readNumber cfg (t ++ r)) (readNumber cfg t) := by
+  rw [readNumber_eq, readNumber_eq]
+  cases t with
+  | cons a t' =>
+    simp only [List.cons_append, peek, adv, List.headD_cons, List.tail_cons]
+    exact NumCut_ite _ (fun _ => readNumberBody_cut cfg (a :: t') (a == 0x2D) t' r)
+      (fun _ => readNumberBody_cut cfg (a :: t') false (a :: t') r)
+  | nil =>
+    have h0 : (peek ([] : Bytes) == 0x2D || peek ([] : Bytes) == 0x2B) = false := by decide
+    simp only [h0, Bool.false_eq_true, reduceIte, List.nil_append]
+    apply NumCut_ite_left
+    · intro h
+      cases r with
+      | nil => exact absurd h (by decide)
+      | cons c r' =>
+        apply NumCut_of_numLen
+        have := readNumberBody_len cfg (c :: r') (peek (c :: r') == 0x2D) (adv (c :: r'))
+        simp only [adv, List.tail_cons] at this
+        simp only [adv, List.tail_cons, List.length_cons]
+        omega
+    · intro _
+      exact readNumberBody_cut cfg [] false [] r
+
+theorem shiftV_numToVal (k a b : Nat) (x : NumVal) :
+    shiftV k (numToVal (mkHdr a b) x) = numToVal (mkHdr (a + k) (b + k)) x := by
+  cases x <;> rfl
+
+/-- the same for the reader-protocol wrapper: header positions differ by `r.length` -/
+theorem readNumberRes_cut (ctx : Ctx) (t r : Bytes) (cl : List Call) (v : Val) (st' : St)
+    (h : readNumberRes ctx { rest := t ++ r, calls := cl } = .ok v st') (hl : r.length ≤ st'.rest.length) :
+    ∃ t' v', st' = { rest := t' ++ r, calls := cl } ∧
+      readNumberRes ctx { rest := t, calls := cl } = .ok v' { rest := t', calls := cl } ∧
+      shiftV r.length v' = v := by
+  unfold readNumberRes at h ⊢
+  simp only [] at h ⊢
+  cases hb : readNumber ctx.cfg (t ++ r) with
+  | err cur => rw [hb] at h; cases h
+  | ok nv rest =>
+    rw [hb] at h
+    simp only [Res.ok.injEq] at h
+    obtain ⟨hv, hst⟩ := h
+    subst hst
+    simp only [] at hl
+    obtain ⟨t', rfl, hs⟩ := readNumber_cut ctx.cfg t r nv rest hb hl
+    refine ⟨t', numToVal (mkHdr (ctx.pos t) (ctx.pos t')) nv, rfl, ?_, ?_⟩
+    · rw [hs]
+    · rw [shiftV_numToVal, ← hv]
+      simp only [Ctx.pos, List.length_append]
 
 end Edn.Proofs
